@@ -279,7 +279,29 @@ def one_run(ctx, kind, rng, plan=None, steps=0):
                 if not its:
                     continue
                 k = act[2] if act[2] is not None else rng.randrange(len(its))
-                edit_item(kind, its[k], rng)
+                # how the program reaches the item it edits: through iteration, by position, or by label — and, before it edits,
+                # it may have asked OTHER instances for the same position / label (reading never ties instances together)
+                how = rng.choice(["iteration", "index", "negative-index", "label", "label"]) if kind in ("data3d", "force3d", "emg", "events") else "iteration"
+                target = its[k]
+                if how == "label":
+                    lab = its[k].label
+                    k = [x.label for x in its].index(lab)
+                    for other in (insts if rng.random() < 0.7 else []):
+                        try:
+                            other[lab]
+                        except Exception:
+                            pass
+                    target = insts[i][lab]
+                elif how == "index":
+                    for other in (insts if rng.random() < 0.7 else []):
+                        try:
+                            other[k]
+                        except Exception:
+                            pass
+                    target = insts[i][k]
+                elif how == "negative-index":
+                    target = insts[i][k - len(its)]
+                edit_item(kind, target, rng)
                 ops.append([Sym("edit"), i, k])
             elif act[0] == "clone":
                 # copy.deepcopy / a pickle round trip of an instance: a new instance with items of its own
